@@ -19,21 +19,29 @@ PROP = dict(
                "mochi's decoder for the CONNACK bytes.  Modelled not verified: the wire decoding of CONNECT (the harness "
                "encodes variants by hand; a missing credential field = decode failure), the authentication hook decision "
                "(oracle argument auth_ok; false when no hook is installed), the identifier assigned to an empty client id "
-               "(oracle), MaximumClients never reached.  The window model covers one publisher and one resuming connection.",
+               "(oracle).  The sequential model does not reach MaximumClients; the refusal at the limit is covered by "
+               "the interleaving model Conc/Limit.v (C35) read with the C13 clause: C13_limit_refusal_is_connack (every "
+               "refused attempt was answered by the failure CONNACK of its version, for all schedules) and the monitor "
+               "engine life13limit on the forced schedules of the real broker (a decided attempt's first packet is a "
+               "CONNACK, 0x89 / 0x03 when refused).  The window model covers one publisher and one resuming connection.",
     engines=[dict(hx="life", args=["C13"], model="life13"),
-             dict(hx="connack_sched", args=["C13"], model="connack_sched")],
+             dict(hx="connack_sched", args=["C13"], model="connack_sched"),
+             dict(hx="limit", model="life13limit")],
     theorems=["C13_first", "C13_auth", "C13_invalid_connect", "C13_validate_sound",
-              "C13_connack_first_schedules_refuted", "C13_connack_first_modulo_findings"],
-    model_files="coq/Session/Lifecycle.v coq/Conc/Connack.v",
+              "C13_connack_first_schedules_refuted", "C13_connack_first_modulo_findings",
+              "C13_limit_refusal_is_connack"],
+    model_files="coq/Session/Lifecycle.v coq/Conc/Connack.v coq/Session/LifeLimit.v (over coq/Conc/Limit.v)",
     rule="exhaustive product: 9 protocol name/version pairs x reserved bit x clean x {id, empty id} x 8 will variants "
          "(flag/qos 0-3/retain/empty topic/empty payload) x 8 credential variants (flags with/without fields, wrong "
          "password, missing field) x hook configs {no auth hook, allow-all, deny-all, user/password} x {fresh, existing "
          "session}, with capability variations (minimum version 4, maximum qos 1, retain unavailable); 5 kinds of non-CONNECT "
-         "first packets; forced schedules of the CONNACK window (3 orders x MQTT 4/5).  non-trivial = history of more than "
+         "first packets; forced schedules of the CONNACK window (3 orders x MQTT 4/5); the forced schedules of the C35 engine `limit` (every "
+         "interleaving of the 3 atomic steps of 3 concurrent attach attempts at limits 1 and 2, with and without takeover, plus "
+         "random schedules) read by the monitor life13limit.  non-trivial = history of more than "
          "two steps or a forced schedule; distinct = distinct case lines",
     exhaustive=True,
     modelled="server.go attachClient (up to the read loop), readConnectionPacket, validateConnect, SendConnack (code "
              "mapping, session-present), packets.ConnectValidate, clients.go ParseConnect",
     assumptions=["connection numbers name distinct network connections (fresh_conns)",
-                 "MaximumClients is not reached", "OnConnect hooks do not fail"],
+                 "MaximumClients is not reached in the sequential histories (the limit is covered by the schedules of Conc/Limit.v)", "OnConnect hooks do not fail"],
 )
